@@ -1,10 +1,12 @@
-(* C26 — proofs. *)
+(* C26 — proofs, part 1: maps, the mark-and-sweep, convergence of one cache. *)
 From Coq Require Import List NArith Arith Bool Lia.
 From Verif.C26 Require Import Model Spec.
 Import ListNotations.
 
 Lemma st_eqb_eq a b : st_eqb a b = true <-> a = b.
 Proof. destruct a, b; simpl; split; congruence. Qed.
+Lemma st_eqb_refl a : st_eqb a a = true.
+Proof. destruct a; reflexivity. Qed.
 
 Lemma agg_insync cs : agg cs = InSync <-> Forall (fun s => s = InSync) cs.
 Proof.
@@ -16,3 +18,215 @@ Proof.
     + intros F. exfalso. assert (forallb (st_eqb InSync) cs = true); [|congruence].
       apply forallb_forall. intros x Hx. rewrite Forall_forall in F. apply st_eqb_eq. symmetry. auto.
 Qed.
+
+(* ---------- association lists ---------- *)
+Section Maps.
+  Context {A : Type}.
+  Implicit Types m : list (N * A).
+
+  Lemma lookup_remove k k' m : lookup k (remove k' m) = if N.eqb k k' then None else lookup k m.
+  Proof.
+    induction m as [|[a x] m IH]; simpl.
+    - destruct (N.eqb k k'); reflexivity.
+    - destruct (N.eqb k' a) eqn:E1; simpl.
+      + apply N.eqb_eq in E1; subst a. rewrite IH. destruct (N.eqb k k') eqn:E2; reflexivity.
+      + rewrite IH. destruct (N.eqb k a) eqn:E2; [|reflexivity].
+        apply N.eqb_eq in E2; subst a. rewrite N.eqb_sym, E1. reflexivity.
+  Qed.
+
+  Lemma lookup_upsert k k' (x : A) m : lookup k (upsert k' x m) = if N.eqb k k' then Some x else lookup k m.
+  Proof.
+    unfold upsert. simpl. destruct (N.eqb k k') eqn:E; [reflexivity|]. rewrite lookup_remove, E. reflexivity.
+  Qed.
+
+  Lemma lookup_in k m : lookup k m <> None <-> In k (map fst m).
+  Proof.
+    induction m as [|[a x] m IH]; simpl.
+    - split; [congruence|tauto].
+    - destruct (N.eqb k a) eqn:E.
+      + apply N.eqb_eq in E. subst. split; [auto|congruence].
+      + rewrite IH. apply N.eqb_neq in E. split; [auto|]. intros [H|H]; [congruence|auto].
+  Qed.
+
+  Lemma lookup_nil_all m : (forall k, lookup k m = None) -> m = [].
+  Proof.
+    destruct m as [|[a x] m]; [reflexivity|]. intros H. specialize (H a). simpl in H. rewrite N.eqb_refl in H. discriminate.
+  Qed.
+End Maps.
+
+Arguments upsert : simpl never.
+Arguments remove : simpl never.
+
+(* revision-level reading of a view *)
+Definition rvl (k : N) (V : vmap) : option N := option_map fst (lookup k V).
+
+Lemma rvl_upsert k k' r v V : rvl k (upsert k' (r, v) V) = if N.eqb k k' then Some r else rvl k V.
+Proof. unfold rvl. rewrite lookup_upsert. destruct (N.eqb k k'); reflexivity. Qed.
+Lemma rvl_remove k k' V : rvl k (remove k' V) = if N.eqb k k' then None else rvl k V.
+Proof. unfold rvl. rewrite lookup_remove. destruct (N.eqb k k'); reflexivity. Qed.
+
+(* the updates carried by a list of results, in order *)
+Definition upds_of (rs : list result) : list upd :=
+  flat_map (fun r => match r with ResUpd us => us | _ => [] end) rs.
+Lemma upds_of_app a b : upds_of (a ++ b) = upds_of a ++ upds_of b.
+Proof. apply flat_map_app. Qed.
+Definition cfold (V : vmap) (us : list upd) : vmap := fold_left capply us V.
+Lemma cfold_app V a b : cfold V (a ++ b) = cfold (cfold V a) b.
+Proof. apply fold_left_app. Qed.
+
+(* ---------- mark and sweep: one converted KV ---------- *)
+Definition I1 (rs old : rmap) (V : vmap) := forall k, rvl k V = match lookup k rs with Some r => Some r | None => lookup k old end.
+Definition I2 (rs old : rmap) := forall k, lookup k rs <> None -> lookup k old = None.
+Definition I3 (rs : rmap) (S : vmap) := forall k, rvl k S = lookup k rs.
+
+Ltac h1_crush H H1 H2 H3 k Er Eo :=
+  inversion H; subst; clear H; cbn [upds_of flat_map app cfold fold_left capply sapply]; (split; [|split]); intros q;
+  try specialize (H1 q); try specialize (H2 q); try specialize (H3 q);
+  rewrite ?rvl_upsert, ?rvl_remove, ?lookup_upsert, ?lookup_remove, ?lookup_upsert, ?lookup_remove in *;
+  destruct (N.eqb q k) eqn:Eq; try (apply N.eqb_eq in Eq; subst q);
+  rewrite ?Er, ?Eo, ?N.eqb_refl in *; auto; try congruence.
+
+Lemma handle_one_inv rs old V S x rs' old' o :
+  handle_one rs old x = (rs', old', o) -> I1 rs old V -> I2 rs old -> I3 rs S ->
+  I1 rs' old' (cfold V (upds_of o)) /\ I2 rs' old' /\ I3 rs' (sapply S x).
+Proof.
+  destruct x as [[k r] v]. unfold handle_one, mark_valid, I1, I2, I3. intros H H1 H2 H3.
+  destruct (lookup k old) as [r0|] eqn:Eo.
+  - (* the key was in oldResources: it moves to resources first *)
+    assert (Er : lookup k rs = None).
+    { destruct (lookup k rs) eqn:E; [|reflexivity]. rewrite H2 in Eo; congruence. }
+    rewrite lookup_upsert, N.eqb_refl in H.
+    destruct v as [v|].
+    + destruct (N.eqb r0 r) eqn:Err; [apply N.eqb_eq in Err; subst r0|]; h1_crush H H1 H2 H3 k Er Eo.
+    + h1_crush H H1 H2 H3 k Er Eo.
+  - destruct v as [v|].
+    + destruct (lookup k rs) as [r0|] eqn:Er.
+      * destruct (N.eqb r0 r) eqn:Err; [apply N.eqb_eq in Err; subst r0|]; h1_crush H H1 H2 H3 k Er Eo.
+      * h1_crush H H1 H2 H3 k Er Eo.
+    + destruct (lookup k rs) as [r0|] eqn:Er; h1_crush H H1 H2 H3 k Er Eo.
+Qed.
+
+Lemma handle_many_inv xs : forall rs old V S rs' old' o,
+  handle_many rs old xs = (rs', old', o) -> I1 rs old V -> I2 rs old -> I3 rs S ->
+  I1 rs' old' (cfold V (upds_of o)) /\ I2 rs' old' /\ I3 rs' (fold_left sapply xs S).
+Proof.
+  induction xs as [|x xs IH]; intros rs old V S rs' old' o H H1 H2 H3; simpl in H.
+  - inversion H; subst. simpl. auto.
+  - destruct (handle_one rs old x) as [[rs1 old1] o1] eqn:E1.
+    destruct (handle_many rs1 old1 xs) as [[rs2 old2] o2] eqn:E2. inversion H; subst; clear H.
+    destruct (handle_one_inv _ _ _ _ _ _ _ _ E1 H1 H2 H3) as (A1 & A2 & A3).
+    rewrite upds_of_app, cfold_app. simpl. eapply IH; eauto.
+Qed.
+
+(* what handle_wl / handle_items leave alone *)
+Definition same_ctl (c c' : cache) : Prop :=
+  status c' = status c /\ ph c' = ph c /\ pfr c' = pfr c /\ crd c' = crd c /\ lpoll c' = lpoll c /\ wpoll c' = wpoll c
+  /\ conn c' = conn c /\ stale c' = stale c.
+Lemma same_ctl_refl c : same_ctl c c. Proof. unfold same_ctl; tauto. Qed.
+Lemma same_ctl_trans a b c : same_ctl a b -> same_ctl b c -> same_ctl a c.
+Proof. unfold same_ctl; intuition congruence. Qed.
+
+Definition nostatus (rs : list result) : Prop := forall s, ~ In (ResStatus s) rs.
+Lemma nostatus_app a b : nostatus a -> nostatus b -> nostatus (a ++ b).
+Proof. unfold nostatus; intros Ha Hb s Hi. apply in_app_or in Hi. destruct Hi; [eapply Ha|eapply Hb]; eauto. Qed.
+Lemma nostatus_nil : nostatus []. Proof. intros s []. Qed.
+
+Lemma handle_one_nostatus rs old x : nostatus (snd (handle_one rs old x)).
+Proof.
+  destruct x as [[k r] v]. unfold handle_one. destruct (mark_valid rs old k) as [rs1 old1].
+  destruct v; destruct (lookup k rs1); try destruct (N.eqb _ _); simpl; intros s; simpl; intuition congruence.
+Qed.
+Lemma handle_many_nostatus xs : forall rs old, nostatus (snd (handle_many rs old xs)).
+Proof.
+  induction xs as [|x xs IH]; intros rs old; simpl; [apply nostatus_nil|].
+  pose proof (handle_one_nostatus rs old x) as H1. destruct (handle_one rs old x) as [[rs1 old1] o1].
+  specialize (IH rs1 old1). destruct (handle_many rs1 old1 xs) as [[rs2 old2] o2]. simpl in *. apply nostatus_app; auto.
+Qed.
+
+Lemma handle_wl_spec g c old k r v c' old' o V S :
+  handle_wl g c old k r v = (c', old', o) -> I1 (res c) old V -> I2 (res c) old -> I3 (res c) S ->
+  I1 (res c') old' (cfold V (upds_of o)) /\ I2 (res c') old' /\ I3 (res c') (sapply_conv (cv g) S k r v)
+  /\ same_ctl c c' /\ nostatus o.
+Proof.
+  unfold handle_wl, sapply_conv. intros H H1 H2 H3. destruct (convert (cv g) k r v) as [kvs e].
+  pose proof (handle_many_nostatus kvs (res c) old) as Hn.
+  destruct (handle_many (res c) old kvs) as [[rs old1] o1] eqn:E. inversion H; subst; clear H. simpl in *.
+  destruct (handle_many_inv _ _ _ _ _ _ _ _ E H1 H2 H3) as (A1 & A2 & A3).
+  assert (Eu : upds_of (o1 ++ (if e then [ResParseErr k] else [])) = upds_of o1).
+  { rewrite upds_of_app. destruct e; simpl; apply app_nil_r. }
+  rewrite Eu. repeat split; auto.
+  apply nostatus_app; auto. destruct e; intros s; simpl; intuition congruence.
+Qed.
+
+Lemma handle_items_spec g items : forall c old c' old' o V S,
+  handle_items g c old items = (c', old', o) -> I1 (res c) old V -> I2 (res c) old -> I3 (res c) S ->
+  I1 (res c') old' (cfold V (upds_of o)) /\ I2 (res c') old'
+  /\ I3 (res c') (fold_left (fun V i => sapply_conv (cv g) V (ikey i) (irev i) (Some (ival i))) items S)
+  /\ same_ctl c c' /\ nostatus o.
+Proof.
+  induction items as [|i items IH]; intros c old c' old' o V S H H1 H2 H3; simpl in H.
+  - inversion H; subst. simpl. split; [|split; [|split; [|split]]]; auto using same_ctl_refl, nostatus_nil.
+  - destruct (handle_wl g c old (ikey i) (irev i) (Some (ival i))) as [[c1 old1] o1] eqn:E1.
+    destruct (handle_items g c1 old1 items) as [[c2 old2] o2] eqn:E2. inversion H; subst; clear H.
+    destruct (handle_wl_spec _ _ _ _ _ _ _ _ _ _ _ E1 H1 H2 H3) as (A1 & A2 & A3 & A4 & A5).
+    destruct (IH _ _ _ _ _ _ _ E2 A1 A2 A3) as (B1 & B2 & B3 & B4 & B5).
+    rewrite upds_of_app, cfold_app. simpl. split; [|split; [|split; [|split]]]; auto.
+    + eapply same_ctl_trans; eauto.
+    + apply nostatus_app; auto.
+Qed.
+
+(* ---------- scanning a result stream for "update while WaitForDatastore" ---------- *)
+Fixpoint nowait (s : st) (rs : list result) : option st :=
+  match rs with
+  | [] => Some s
+  | ResStatus s' :: t => nowait s' t
+  | ResUpd _ :: t => match s with Wait => None | _ => nowait s t end
+  | _ :: t => nowait s t
+  end.
+Lemma nowait_app a : forall s b, nowait s (a ++ b) = match nowait s a with Some s' => nowait s' b | None => None end.
+Proof.
+  induction a as [|r a IH]; intros s b; simpl; [reflexivity|].
+  destruct r; auto. destruct s; auto.
+Qed.
+Lemma nowait_nostatus rs : forall s, nostatus rs -> s <> Wait -> nowait s rs = Some s.
+Proof.
+  induction rs as [|r rs IH]; intros s Hn Hs; simpl; [reflexivity|].
+  assert (nostatus rs) by (intros q Hq; apply (Hn q); right; exact Hq).
+  destruct r; auto.
+  - exfalso. apply (Hn s0). left. reflexivity.
+  - destruct s; auto. congruence.
+Qed.
+
+Section Steps.
+  Variable ord : rmap -> rmap.
+  Hypothesis ord_in : forall m x, In x (ord m) <-> In x m.
+
+  Lemma ord_nil : ord [] = [].
+  Proof. destruct (ord []) as [|x l] eqn:E; [reflexivity|]. exfalso. apply (ord_in [] x). rewrite E. left. reflexivity. Qed.
+
+  Lemma ord_keys m k : In k (map fst (ord m)) <-> lookup k m <> None.
+  Proof.
+    rewrite lookup_in. rewrite !in_map_iff. split; intros [x [Hx Hi]]; exists x; split; auto; apply ord_in; auto.
+  Qed.
+
+  Lemma cfold_dels l : forall V k,
+    rvl k (cfold V (map (fun kr : N * N => UDel (fst kr)) l)) = if existsb (N.eqb k) (map fst l) then None else rvl k V.
+  Proof.
+    induction l as [|[a x] l IH]; intros V k; simpl; [reflexivity|].
+    unfold cfold in *. rewrite IH. rewrite rvl_remove. destruct (N.eqb k a); simpl; [|reflexivity].
+    destruct (existsb _ _); reflexivity.
+  Qed.
+
+  Lemma existsb_in k l : existsb (N.eqb k) l = true <-> In k l.
+  Proof.
+    rewrite existsb_exists. split.
+    - intros [x [Hx He]]. apply N.eqb_eq in He. subst. exact Hx.
+    - intros H. exists k. split; [exact H|apply N.eqb_refl].
+  Qed.
+
+  Lemma upds_of_single_dels l :
+    upds_of (map (fun kr : N * N => ResUpd [UDel (fst kr)]) l) = map (fun kr : N * N => UDel (fst kr)) l.
+  Proof. induction l as [|x l IH]; simpl; [reflexivity|]. f_equal. exact IH. Qed.
+  Lemma nowait_single_dels l s : s <> Wait -> nowait s (map (fun kr : N * N => ResUpd [UDel (fst kr)]) l) = Some s.
+  Proof. intros Hs. induction l as [|x l IH]; simpl; [reflexivity|]. destruct s; auto. congruence. Qed.
+End Steps.
